@@ -483,6 +483,10 @@ class SV:
     def __hash__(s):
         return id(s)
 
+    def __bool__(s):
+        # truthiness of a float (``x or default``, ``if x:``): x != 0, decided by forking like every other comparison
+        return bool(s != 0)
+
     def __float__(s):
         e = z3.simplify(s.e)
         if z3.is_rational_value(e):
